@@ -86,7 +86,7 @@ func checkDefs() map[string]CheckDef {
 			each("H_resume", l(40, 44, 45, 46), l(13), l(8), l(-1)),
 			each("H_chain", l(40, 41, 44), l(13), l(6, 7)), each("H_chain", l(40), l(9), l(3)),
 			each("H_resume", l(40), l(0), l(14), l(-1))),
-		"ParseSIPMsg: resumption lemma (one intermediate cut, every cut position, complete object state compared => every chunk schedule by induction) on templates `request/reply line + header + W symbolic bytes + blank line`, W = 4 (quick) / 6 (thorough) for From, To, Contact, PAI, CSeq, Call-ID, Content-Length, Expires, generic header, reply CSeq, multi-header; fully symbolic header block of 5-8 bytes after `A B C CRLF`; flags 0..3; capacities default,(1,1),(0,0),(2,2); plus the all-schedules chain on 4-5 byte windows",
+		"ParseSIPMsg resumed vs. one-shot. Resumption lemma (one intermediate cut, EVERY cut position symbolic, complete object state compared while suspended => every chunk schedule by induction) on message templates with one symbolic window W: 11 header kinds (From, To, Contact, PAI, CSeq, Call-ID, Content-Length+body, Expires, generic, reply, 3-header) W=4 (6) x flags 0..3; 9 boundary templates (symbolic header name, inside a folded value, end of first line, end of block, Via+Contact, reply tag, 2nd Contact / PAI value, Route) W=3 (5); 13 interior templates (inside a quoted display name, after a parameter value, parameter name, between CSeq number and method, URI inside <>, method, status code, q value, star contact, end of a reply line) W=3; limit numbers (Content-Length / CSeq / Expires whose last 2 digits are symbolic around 2^24 / 2^32); capacities default,(1,1),(0,0),(2,2); fully symbolic header block of 5-6 (8) bytes after `A B C CRLF`; all-schedules chains: full 14-byte message, and cuts anywhere in/after the window of 5 templates W=3",
 		"buffers beyond the windows; flags changing between calls; SIPMsgNoMoreDataF (documented end-of-input mode); > 65535 bytes")
 
 	add("C02",
@@ -140,7 +140,7 @@ func checkDefs() map[string]CheckDef {
 			each("H_premature", idsTok, l(0), l(11)),
 			each("H_premature", idsURILists, l(0), l(10)),
 			each("H_premature", l(41, 42, 43), tplMsgHdr, l(6))),
-		"every streaming parser: a definitive verdict on the first n-1 bytes vs. the verdict on n bytes (one-byte extension; any suffix follows by induction inside the bound); fully symbolic n = 8-11 (10-14) bytes, message parser with flags skip-body / clen-required on header templates",
+		"every streaming parser: a definitive verdict on the first n-1 bytes vs. the verdict and values on n bytes (one-byte extension; any suffix follows by induction inside the bound): fully symbolic n = 8-11 (10-14) bytes for all 36 sub-parser adapters, name-addr interior templates, first line 15 bytes and templates; message parser with flags skip-body / clen-required (and flags 0 on templates that carry Content-Length) on header, boundary, interior and limit-number templates W=2-4 (6)",
 		"message parser without Content-Length and without skip-body/clen-required (documented exemption: the body is the rest of the buffer); SIPMsgNoMoreDataF, POptInputEndF")
 
 	add("C04",
@@ -158,12 +158,12 @@ func checkDefs() map[string]CheckDef {
 			each("H_C04_uri", l(3, 4), l(2)),
 			each("H_C04_ip", l(5, 7), l(-1, 0, 3, 4, 16, 20)),
 			each("H_C04_sig", seq(0, 4))),
-		cat(each("H_C04_parse", l(0, 1, 2, 3, 6, 8, 9, 11, 12, 13, 15, 16, 18, 19, 20, 21, 22, 23, 25, 26, 27, 30, 32, 33, 34, 36), l(8)),
+		cat(each("H_C04_parse", l(0, 1, 2, 3, 6, 8, 9, 11, 12, 13, 15, 16, 18, 19, 20, 21, 22, 23, 25, 26, 27, 30, 32, 33, 34, 36), l(8)), each("H_C04_parse", l(0, 1, 2, 6, 8, 11, 22, 23), l(9)),
 			each("H_C04_msg", l(1, 3, 4, 9, 11), l(5), l(-1, 0, 1), l(-1, 0, 1)),
 			each("H_C04_uri", l(5), l(3)),
 			each("H_C04_ip", l(9), l(-1, 4, 16)),
 			each("H_C04_sig", l(5))),
-		"every exported parse / lookup / compare / relocate / signature entry point on fully symbolic bytes (6-8 bytes, every start offset 0..n, capacities none/0/1, symbolic flags, one symbolic cut): no panic (all run-time checks are obligations), termination (unwinding assertion), returned offsets inside the buffer and not before the start unless error, every reported field dereferencable after any verdict; lookups on names of length 0..20; all enum values. Isolation: the engine records every store to a package-level variable outside init (none allowed); objects are only reachable through the arguments",
+		"every exported parse / lookup / compare / relocate / signature / accessor entry point (a job fails if an exported function of the package is entered by no C04 job): fully symbolic 6-8 (9) bytes, every start offset 0..n symbolic, capacities none/0/1, symbolic flags, one symbolic cut, message templates incl. bodies at offsets k in {0,1,3,5} in a buffer without spare capacity: no panic (all run-time checks are obligations), termination (unwinding assertion), returned offsets inside the buffer and not before the start unless error, every reported field dereferencable after any verdict; lookups on names of length 0..20; all enum values. Isolation: every store to package-level state (globals and everything allocated by init) outside init is an obligation of every job of every check, confirmed natively by a digest of all package-level variables",
 		"actual thread schedules / the race detector (no concurrency in the engine: isolation is argued from the recorded store footprint); inputs longer than the bound")
 
 	add("C05",
@@ -172,9 +172,10 @@ func checkDefs() map[string]CheckDef {
 			each("H_C05", l(14, 16), l(5), l(0)),
 			each("H_C05", tplBoundary, l(4), l(0)), each("H_C05", tplInterior, l(4), l(0)),
 			each("H_C05_chunk", l(1, 3, 5, 11, 12, 29, 32, 34, 35, 44, 46, 49, 52), l(3))),
-		cat(each("H_C05", l(1, 2, 3, 4, 5, 6, 7, 8, 9, 10, 11, 12), l(6), l(0, 1, 2)),
-			each("H_C05", l(13), l(9), l(0))),
-		"ParseSIPMsg one-shot on templates with a symbolic window of 4 (6) bytes in each header kind, repeated Contact headers (template 11), three-header message (12), fully symbolic 7 (9)-byte header block: containment, first-line order, header order / own-line / trimming, nesting of From/To/CSeq/Call-ID/Contact/PAI sub-fields, body and raw-message extents",
+		cat(each("H_C05", l(1, 2, 3, 4, 5, 6, 7, 8, 9, 10, 11, 12), l(6), l(0, 1, 2)), each("H_C05", l(1, 3, 4, 9, 11), l(7), l(0)),
+			each("H_C05", tplBoundary, l(6), l(0)), each("H_C05", tplInterior, l(6), l(0)), each("H_C05_chunk", l(1, 3, 11, 44, 46, 49, 52), l(5)),
+			each("H_C05", l(13), l(9, 10), l(0))),
+		"ParseSIPMsg one-shot on 12 header templates W=4 (6-7), 9 boundary and 13 interior templates W=4 (6), repeated Contact headers, fully symbolic 7 (10)-byte header block; the same layout facts on an object resumed at one symbolic cut (13 templates W=3 (5)): containment, first-line order, header order / own-line / trimming, nesting of From/To/CSeq/Call-ID/Contact/PAI sub-fields, body and raw-message extents",
 		"chunked parsing is covered through C01 (same observables); longer messages")
 
 	add("C06",
@@ -183,19 +184,19 @@ func checkDefs() map[string]CheckDef {
 			each("H_C06_pipe", l(2, 3), l(2), l(0, 2)), each("H_C06_pipe3", l(2, 3), l(0, 1, 300))),
 		cat(each("H_C06_clen", seq(1, 3), seq(4, 8)), each("H_C06_clen", l(4, 5, 6, 11, 12), l(0, 2)),
 			each("H_C06_pipe", l(4), l(3), l(0, 1, 3))),
-		"skeleton request with Content-Length of 1-10 (12) symbolic digits and 0-3 (8) body bytes, all 8 flag combinations symbolic; no-Content-Length variants; two pipelined messages with symbolic header-value windows",
+		"skeleton request with Content-Length of 1-10 (12) symbolic digits and 0-3 (8) body bytes, all 8 flag combinations symbolic; no-Content-Length variants; two and three pipelined messages (request with body, reply, request) with symbolic header-value windows, the first at offset 0, 1, 300",
 		"header blocks other than the skeleton; more than two pipelined messages")
 
 	add("C07",
 		cat(each("H_C07", l(0), l(8), l(0, 1, 2)), each("H_C07", l(0), l(9), l(0)), each("H_C07", l(0), seq(3, 7), l(2)), each("H_C07", l(15, 16, 17), l(4), l(0, 1, 3))),
-		cat(each("H_C07", l(0), l(9, 10), l(0, 2)), each("H_C07", l(15, 16, 17), l(6), l(1, 3))),
-		"ParseHeaders (no header-specific value parsers) vs. a non-incremental reference tokeniser on fully symbolic blocks of 3-8 (10) bytes and on templates with known header names, capacities 0..3: count, name/value spans, type = literal-table classification, type flags, first-of-type",
+		cat(each("H_C07", l(0), l(9, 10, 11), l(0, 2)), each("H_C07", l(0), l(12), l(1)), each("H_C07", l(15, 16, 17), l(6, 8), l(1, 3))),
+		"ParseHeaders (no header-specific value parsers) vs. a non-incremental reference tokeniser on fully symbolic blocks of 3-9 (12) bytes and on templates with known header names, capacities 0..3: count, name/value spans, type = literal-table classification, type flags, first-of-type",
 		"blocks longer than the bound; more than 6 headers per block; header-specific value rewriting (C05/C09)")
 
 	add("C08",
 		cat(each("H_C08", l(0), l(14, 15)), each("H_C08", l(23), l(9)), each("H_C08", l(24, 25), l(6)), each("H_C08", l(26, 27), l(4))),
-		cat(each("H_C08", l(0), l(16, 17)), each("H_C08", l(24, 25), l(8))),
-		"ParseFLine vs. a non-incremental reference on fully symbolic lines of 14-15 (17) bytes and templates: 9 symbolic method bytes, symbolic status/reason, symbolic URI/version",
+		cat(each("H_C08", l(0), l(16, 17, 18, 19, 20)), each("H_C08", l(24, 25), l(8, 10)), each("H_C08", l(23), l(10))),
+		"ParseFLine vs. a non-incremental reference on fully symbolic lines of 14-15 (20) bytes and templates: 9 symbolic method bytes, symbolic status/reason, symbolic URI/version",
 		"lines longer than the bound")
 
 	add("C09",
@@ -204,16 +205,16 @@ func checkDefs() map[string]CheckDef {
 			each("H_C09_shape", l(1, 2, 8, 13), l(1), l(0, 1, 3, 5), l(2)),
 			each("H_C09_list", l(0), l(0, 1, 2, 3), l(1)), each("H_C09_list", l(1), l(0), l(1)),
 			each("H_C09_hdrs", l(1, 2)), each("H_C09_minmax", l(1, 2, 3))),
-		cat(each("H_C09_shape", l(1, 2, 8, 13), l(0), l(0, 1, 2, 3, 4, 5, 7, 8), l(4)),
+		cat(each("H_C09_shape", l(1, 2, 8, 13), l(0), l(0, 1, 2, 3, 4, 5, 7, 8, 9, 10, 11), l(4, 5)),
 			each("H_C09_list", l(0), l(0, 2), l(3)), each("H_C09_hdrs", l(5))),
-		"From/To/Contact/PAI values built from 9 shapes (angle / quoted name / token name / bare URI / expires+q / lr / star / quoted tag / two-token name) with class-constrained symbolic components of 2 (4) bytes and symbolic optional LWS (none, SP, HT, fold) at the legal places, directly and through ParseHdrLine; 3-value lists with commas inside quotes and <>; two Contact headers + Expires through ParseHeaders",
+		"From/To/Contact/PAI values built from 12 shapes (angle / quoted name / token name / bare URI / expires+q / lr / star / quoted tag / two-token name / escaped quoted name with fold / bare URI with LWS and 3 parameters / expires+tag+valueless) with class-constrained symbolic components of 2 (4-5) bytes, parameter names in symbolic letter case and symbolic optional LWS (none, SP, HT, fold) at the legal places, directly and through ParseHdrLine (kind of header); 3-value lists with commas inside quotes and <> incl. exact spans; min / max expires and counts over two Contact headers + Expires through ParseHeaders with capacities 0..2",
 		"values outside the shapes; whitespace inside <>; more than 3 values")
 
 	add("C10",
 		cat(each("H_C10_cseq", seq(1, 21)), each("H_C10_uint", l(0, 1), seq(1, 21)), each("H_C10_status"),
 			each("H_C10_cexp", seq(1, 24)), each("H_C10_q", seq(0, 5)), each("H_C10_port", l(0, 1, 2, 3, 4, 5), seq(1, 8)), each("H_C10_port", l(0, 4), seq(9, 22))),
 		cat(each("H_C10_cseq", seq(22, 40)), each("H_C10_uint", l(0, 1), seq(22, 40)), each("H_C10_cexp", seq(25, 32)), each("H_C10_port", l(0, 1, 3), seq(23, 40))),
-		"every numeric position with all digit strings of length 1..21/24 (40; Contact expires 32 - the 33..40 digit obligations time out in z3 and are not claimed): CSeq, Expires, Content-Length, reply status, Contact expires (saturation), q (6 shapes), URI port (4 carriers); reference = exact 64-bit decimal value of the last 19 digits + leading-zero test",
+		"every numeric position with all digit strings of length 1..21/24 (40; Contact expires 32 - the 33..40 digit obligations time out in z3 and are not claimed): CSeq, Expires, Content-Length, reply status, Contact expires (saturation), q (6 shapes), URI port (6 carriers incl. symbolic passwords before the host); reference = exact 64-bit decimal value of the last 19 digits + leading-zero test",
 		"digit strings longer than 40; chunked numeric parsing is covered by C02")
 
 	add("C11",
@@ -225,9 +226,9 @@ func checkDefs() map[string]CheckDef {
 			each("H_offset", l(40, 41), l(1, 3, 5, 9), l(3), l(1, 255, 256, 65480)),
 			each("H_offset", l(40, 42), l(7, 21, 22), l(2), l(1, 3, 256)),
 			each("H_offset", l(41), tplBoundary, l(3), l(2, 256))),
-		cat(each("H_offset", l(0, 1, 2, 3, 6, 8, 11, 12, 13, 16, 19, 22, 23, 25, 30, 34), l(0), l(7), l(2, 257, 4096, 65528)),
+		cat(each("H_offset", l(0, 1, 2, 3, 6, 8, 11, 12, 13, 16, 19, 22, 23, 25, 30, 34), l(0), l(7), l(2, 257, 4096, 65528)), each("H_offset", l(0, 1, 2, 6, 8, 11, 23), l(0), l(8), l(3, 256)),
 			each("H_offset", l(40, 41), l(1, 3, 5, 9), l(5), l(7, 257, 65478))),
-		"same text at offset k vs. offset 0 for the message parser and every stand-alone parser: contents fully symbolic (5/7 bytes or template windows), the two bytes before the text symbolic, k in {1,3,255,256,257,4096, 65535-len-..} (8/16-bit boundaries and the addressing limit)",
+		"same text at offset k vs. offset 0 for the message parser and every stand-alone parser: contents fully symbolic (4-5 (7-8) bytes, first lines shorter than the 14-byte look-ahead, templates incl. Content-Length + body), the two bytes before the text symbolic, k in {1,2,3,7,8,15,16,31,32,63,64,127,128,255,256,257,511,512,1023,1024,4095,4096,32767,32768, 65535-len-..} (every power-of-two boundary and the addressing limit)",
 		"k is a finite set, not every value 1..65535-len (universal over contents only); relocation of parsed URIs is C18")
 
 	add("C12",
@@ -254,22 +255,22 @@ func checkDefs() map[string]CheckDef {
 			each("H_C13_params", l(6), l(0, 1, 2)), each("H_C13_hdrs", l(6), l(0, 1, 2)),
 			each("H_C13_params_chunk", l(64, 66), l(3), l(0, 1, 2)), each("H_C13_params_chunk", l(0), l(6), l(0, 1)),
 			each("H_C13_hdrs_chunk", l(65), l(3), l(0, 1, 2)), each("H_C13_hdrs_chunk", l(0), l(6), l(0, 1))),
-		cat(each("H_C13_msg", l(1, 3, 4, 9, 11, 12), l(5), l(0, 1, 2), l(0, 1, 2), l(0)),
+		cat(each("H_C13_msg", l(1, 3, 4, 9, 11, 12), l(5), l(0, 1, 2), l(0, 1, 2), l(0)), each("H_C13_msg", l(3, 11, 32, 34, 44, 45), l(5), l(0, 1), l(0, 1), l(1)),
 			each("H_C13_params", l(8), l(0, 1, 2, 3)), each("H_C13_hdrs", l(8), l(0, 1, 2, 3))),
-		"the same symbolic message (templates with 3 (5)-byte windows, multi-header and multi-contact) parsed into arrays of capacity (hcap, ccap) in {none,0,1,2}^2 and into ample arrays, one-shot and with one symbolic cut; URI parameter / header lists of 6 (8) symbolic bytes with capacities 0..3 vs 8",
+		"the same symbolic message (header, boundary and interior templates with 3 (5)-byte windows, multi-header and multi-contact) parsed into arrays of capacity (hcap, ccap) in {none,0,1,2}^2 and into ample arrays, one-shot and with one symbolic cut; URI parameter / header lists of 6 (8) symbolic bytes and templates with capacities 0..3 vs 8, one-shot and with one symbolic cut",
 		"GetMsgSig capacity behaviour is C19")
 
 	add("C14",
 		cat(each("H_C14", l(0), seq(1, 8)), each("H_C14", l(1, 2), seq(1, 6))),
-		cat(each("H_C14", l(0), l(9, 10)), each("H_C14", l(1, 2), l(7, 8))),
-		"ParseURI on scheme (any letter case, symbolic) + 1..8 (10) fully symbolic bytes: on success the components joined with their delimiters reproduce the input position by position, order, consumed length; error positions inside the input",
+		cat(each("H_C14", l(0), l(9, 10, 11, 12)), each("H_C14", l(1, 2), l(7, 8, 9, 10))),
+		"ParseURI on scheme (any letter case, symbolic) + 1..8 (12) fully symbolic bytes: on success the components joined with their delimiters reproduce the input position by position, order, consumed length, numeric port == decimal value of the port text; error positions inside the input",
 		"tel: texts containing '@' (not a tel number); longer URIs")
 
 	add("C15",
 		cat(each("H_C15_reflexive", seq(1, 6)), each("H_C15_symmetric", l(1, 2, 3), l(2, 3)), each("H_C15_entry", l(1, 2, 3), l(1, 2, 3)),
 			each("H_C15_case", l(1), l(2)), each("H_C15_presence", seq(0, 3)), each("H_C15_order", l(0, 1, 2))),
-		cat(each("H_C15_reflexive", l(7, 8)), each("H_C15_symmetric", l(4), l(3, 4)), each("H_C15_entry", l(4), l(3, 4)), each("H_C15_case", l(2), l(3))),
-		"URIs = sip: (any case) + up to 6 (8) symbolic bytes each, all 64 skip-flag sets symbolic; precondition (lists parse, no duplicate names) decided with the library's own list parsers; reflexive, symmetric, flag monotonicity, entry-point agreement incl. handed-back URIs, case / order insensitivity on a template, presence rule for user/ttl/method/maddr",
+		cat(each("H_C15_reflexive", l(7, 8, 9, 10)), each("H_C15_symmetric", l(4, 5), l(3, 4)), each("H_C15_symmetric", l(5), l(5)), each("H_C15_entry", l(4, 5), l(3, 4, 5)), each("H_C15_case", l(2), l(3))),
+		"URIs = sip: (any case) + up to 6 (10) symbolic bytes each, all 64 skip-flag sets symbolic; precondition (lists parse, no duplicate names) decided with the library's own list parsers; reflexive, symmetric, flag monotonicity, entry-point agreement incl. handed-back URIs, case insensitivity on a template, two parameters / headers in opposite order with independent symbolic values (equal iff values agree), presence rule for user/ttl/method/maddr",
 		"longer URIs; more than 6 parameters")
 
 	add("C16",
@@ -280,27 +281,27 @@ func checkDefs() map[string]CheckDef {
 
 	add("C17",
 		cat(each("H_C17_tok", l(0), l(6), seq(0, 6)), each("H_C17_tok", l(20), l(4), l(0, 1, 2)), each("H_C17_lists", l(0), l(6), l(0, 1, 3))),
-		cat(each("H_C17_tok", l(0), l(8), seq(0, 6)), each("H_C17_lists", l(0), l(8), l(0, 2))),
-		"ParseTokenParam in its documented loop on 6 (8) fully symbolic bytes for 7 option sets (both separators, ',' '?' end-of-header and end-of-input terminators): every reported name/value is inside the documented character set, stripped, in order, with exactly one '=' between them, complete quoted values, and nothing but LWS / separators lies outside the reported parameters; list wrappers count / classify / accumulate",
+		cat(each("H_C17_tok", l(0), l(8, 9, 10), seq(0, 6)), each("H_C17_lists", l(0), l(8, 9), l(0, 2))),
+		"ParseTokenParam in its documented loop on 6 (10) fully symbolic bytes for 7 option sets (both separators, ',' '?' end-of-header and end-of-input terminators): every reported name/value is inside the documented character set, stripped, in order, with exactly one '=' between them, complete quoted values, and nothing but LWS / separators lies outside the reported parameters; list wrappers count / classify / accumulate",
 		"POptTokSpTermF lists; longer inputs")
 
 	add("C18",
 		cat(each("H_C18", l(0), seq(1, 7)), each("H_C18", l(1, 2), seq(1, 5))),
-		cat(each("H_C18", l(0), l(8, 9)), each("H_C18", l(1, 2), l(6, 7))),
-		"accepted URIs of scheme + 1..7 (9) symbolic bytes relocated onto every 16-bit (offset, length) target with offset+length <= 65535 (both symbolic words, no sampling); Long/Short/Flat/Truncate views",
+		cat(each("H_C18", l(0), l(8, 9, 10, 11)), each("H_C18", l(1, 2), l(6, 7, 8, 9))),
+		"accepted URIs of scheme + 1..7 (11) symbolic bytes relocated onto every 16-bit (offset, length) target with offset+length <= 65535 (both symbolic words, no sampling); Long/Short/Flat/Truncate views",
 		"longer URIs")
 
 	add("C19",
 		cat(each("H_C19_insert", l(0, 1), seq(0, 6), l(2)), each("H_C19_insert", l(2), l(1), l(1)), each("H_C19_insert_rot", l(0, 1), l(0, 3, 6), l(2), seq(1, 5)), each("H_C19_cap", seq(0, 7), l(2)),
 			each("H_C19_cap", l(4, 12), l(4)), each("H_C19_chunk", l(2)), each("H_C19_via", l(1, 2, 3)), each("H_C19_strsig", seq(0, 4)), each("H_C19_string", seq(0, 8)), each("H_C19_state", l(1, 2), l(1, 2, 7))),
 		cat(each("H_C19_insert", l(0, 1), seq(0, 6), l(4)), each("H_C19_strsig", l(5)), each("H_C19_cap", l(2, 5), l(6)), each("H_C19_state", l(3), l(2))),
-		"requests built from a 6-header skeleton: a header with symbolic value inserted at every position + a repeated From appended (signature unchanged); replies; a header with a symbolic 2-4 byte name and capacities 0..7,12 (same signature or ErrHdrTrunc); every single cut; string signatures on 0-4 (5) symbolic bytes; String() for every documented-shape signature",
+		"requests built from a 6-header skeleton in 6 rotations (Via first .. Via last): a header with symbolic value inserted at every position + a repeated From appended (signature unchanged); replies; a header with a symbolic 2-4 byte name and capacities 0..7,12 (same signature or ErrHdrTrunc); every single cut; first Via joined / split / extended with the same symbolic branch; message state constructed directly with 1-2 (3) stored headers of every type and form, symbolic insertion point and array cut; string signatures on 0-4 (5) symbolic bytes; String() for every documented-shape signature",
 		"header sets other than the skeleton; more than 8 stored headers")
 
 	add("C20",
 		cat(each("H_C20_prefix", seq(1, 12), l(4)), each("H_C20_prefix", l(8), l(0, 3, 5)), each("H_C20_contains", seq(1, 12)), each("H_C20_cid", l(0, 1, 2), l(0, 1, 2))),
-		cat(each("H_C20_prefix", l(13, 14, 15), l(4)), each("H_C20_contains", l(13, 14)), each("H_C20_cid", l(3), l(0, 1)), each("H_C20_cid", l(0, 1), l(3))),
-		"IP4Prefix on every byte string of length 1..12 (15), ContainsIP4 1..12 (14), GetCallIDSig flags on an address with 0..2 (3) symbolic bytes before and after, vs. a non-incremental reference (four groups of 1-3 digits <= 255, maximal munch)",
+		cat(each("H_C20_prefix", l(13, 14, 15, 16), l(4)), each("H_C20_contains", l(13, 14, 15)), each("H_C20_cid", l(3), l(0, 1)), each("H_C20_cid", l(0, 1), l(3))),
+		"IP4Prefix on every byte string of length 1..12 (16), ContainsIP4 1..12 (15), GetCallIDSig flags on an address with 0..2 (3) symbolic bytes before and after, vs. a non-incremental reference (four groups of 1-3 digits <= 255, maximal munch)",
 		"longer strings")
 	return m
 }
